@@ -580,7 +580,9 @@ func (c *pathCtx) uniqueValue(t *Term) (uint64, bool) {
 		}
 		return t.k, true
 	}
-	if t.op == oAtom {
+	if t.op == oAtom || t.fp {
+		// floating-point terms: the two queries are expensive and the answer
+		// is almost never "unique"
 		return 0, false
 	}
 	if v, ok := c.uniq[t.id]; ok {
